@@ -700,8 +700,23 @@ type Metadata interface {
 	Dump(string) error
 }
 
+// readMetadataFile reads a metadata file. Only regular files are read: a
+// named pipe or a device with the name of a link file (e.g. in a link
+// directory unpacked from an untrusted archive) would otherwise block the
+// caller or be read without end.
+func readMetadataFile(path string) ([]byte, error) {
+	info, err := os.Stat(path)
+	if err != nil {
+		return nil, err
+	}
+	if !info.Mode().IsRegular() {
+		return nil, fmt.Errorf("%s is not a regular file", path)
+	}
+	return os.ReadFile(path)
+}
+
 func LoadMetadata(path string) (Metadata, error) {
-	jsonBytes, err := os.ReadFile(path)
+	jsonBytes, err := readMetadataFile(path)
 	if err != nil {
 		return nil, err
 	}
@@ -823,7 +838,7 @@ envelope.
 */
 func (mb *Metablock) Load(path string) error {
 	// Read entire file
-	jsonBytes, err := os.ReadFile(path)
+	jsonBytes, err := readMetadataFile(path)
 	if err != nil {
 		return err
 	}
